@@ -36,6 +36,23 @@ func streamPre(ex *rt.Exchange, v *Verdict) bool {
 		v.Inconclusive = "no stream record"
 		return false
 	}
+	if ex.Stream.Deadlock != "" {
+		// both ends of a scripted protocol that cannot deadlock by itself wait to receive, nothing is in flight:
+		// the messages still owed are never delivered
+		kind := "?"
+		if ex.Case.Stream != nil {
+			kind = ex.Case.Stream.Proto
+		}
+		if kind == "" {
+			kind = "phased"
+		}
+		client := "gen"
+		if ex.Case.Stream.RawClient {
+			client = "raw"
+		}
+		v.add(fmt.Sprintf("stream:deadlock:both-ends-receiving:%s:%s-client", kind, client), "streaming exchange deadlocked: %s", ex.Stream.Deadlock)
+		return false
+	}
 	if ex.Stream.Watchdog != "" {
 		v.Inconclusive = "stream watchdog fired: " + ex.Stream.Watchdog
 		return false
